@@ -465,6 +465,10 @@ def run(chk, F, tier):
     chk.extra["entry_stats"] = stats
     chk.extra["sites_inventoried"] = len(sites)
     termination(chk, F, fns)
+    # the one modular assumption every date parser leans on for 'any numeric magnitude' is discharged here as well, over every i32
+    # year (C08's own cells stop at +/-30 000 years): maybe_from_gregorian has no panic, wrap or lossy cast on any path
+    from .c08 import r4_every_year
+    r4_every_year(chk, F, "C13.R1")
     eng.lazy_enums = False  # the decision table is keyed by the concrete variant
     value_ok_table(chk, F, eng, D)
     chk.extra["engine_stats"] = dict(eng.stats)
